@@ -61,7 +61,10 @@ def plan(prop, tier):
 
 
 def p_c01(tier):
-    return {"shards": c01_shards(tier), "require": ["lines_done", "ambiguous_eq", "ambiguous_lf", "overlong", "drain_err", "notfound", "lines_hold"],
+    sh = c01_shards(tier)
+    # response formatting with the capacity swept through every alignment (a value fits, the separator does not, ...): one result code per line
+    sh += sw_shards("bounds", "C01", tier, 8, "--family", "format", tagp="format-align")
+    return {"shards": sh, "require": ["lines_done", "ambiguous_eq", "ambiguous_lf", "overlong", "drain_err", "notfound", "lines_hold"],
             "technique": "explicit-state model checking of the real parser (DFS with state matching over all input bytes, io refusals, handler codes)",
             "bounds": ("tables ambig/impl/A-AP-+TEST (2 orders); cap 6,16 shared+separate; grammar lines with <=1 deviation from 9 bytes, names <=3, 2 lines; all byte strings <=7 over 10 symbols" if tier == "quick" else
                        "tables ambig/impl/A-AP-+TEST (6 orders); cap 6,7(odd shared),16; grammar lines: 2 lines with <=1 deviation and 1 line with <=2 deviations, names <=4; all byte strings <=9 over 10 symbols"),
@@ -84,15 +87,15 @@ def c10_shards(tier, mon="C10", prop="C10"):
     sh = []
     inv = 5 if quick else 8
     for tok in (0, 1):
-        for shared in (0, 1):
-            # command machine, one command kind per shard
+        for shared in ((0, 1) if tok == 0 else (0, 2)):
+            # command machine, one command kind per shard (layouts: separate, shared even, shared odd)
             for nm, alpha, sm in (("W", "+WV", 4), ("R", "+RN", 2), ("U", "+U", 1), ("T", "+TM", 8)):
                 sh.append(mcx("codes-cmd-%s-tok%d-sh%d" % (nm, tok, shared), prop=prop, table=T_CODES, cap=40, shared=shared, name_alpha=alpha, max_name=2,
                               args_alpha="1,", max_args=3, suffix_mask=sm, lines=1, refuse_read=1, refuse_write=1,
                               codes_W=ALLC_WU, codes_U=ALLC_WU, codes_R=ALLC_RT, codes_T=ALLC_RT, max_inv=inv, tok=tok, varcb_fail=1, act="hold", mon=mon))
             # event machine
             # separate buffers of different sizes: the event handlers must be told the capacity of *their* buffer
-            for ub in ((40,) if shared else (40, 34, 48)):
+            for ub in ((40,) if shared else (40, 34, 48)):   # separate buffers of equal / smaller / larger size
                 sh.append(mcx("codes-evt-tok%d-sh%d-ub%d" % (tok, shared, ub), prop=prop, table=T_CODES, cap=40, shared=shared, ubuf=ub, name_alpha="+U", max_name=2, suffix_mask=1,
                               lines=1, refuse_read=1, refuse_write=1, codes_U="OK,HOLD", ecodes_R=ALLE, ecodes_T=ALLE, max_inv=inv, tok=tok, varcb_fail=1,
                               ev="+e:R,+f:T,+g:R", act="trigger,hold", trig_budget=2, mon=mon))
@@ -110,7 +113,7 @@ PLANS["C10"] = p_c10
 
 # ---------------------------------------------------------------- C11 duplex
 
-T_DUP = "+S:R,vu1rw,vi1ro;Z:U;+H:W||+u:vu1ro,vu1ro;+h:R,vu1ro,vi1ro;+t:T,vu1ro,D=d;+d"   # every formatted response has two variables
+T_DUP = "+S:R,vu1rw,vi1ro;Z:U;+H:W||+u:vu1ro,vu1ro;+h:R,vu1ro,vi1ro;+t:T,vu1ro,D=d;+d;+w:vu1ro,vb12ro"   # +w: text does not fit (fails while formatting)   # every formatted response has two variables
 EV_DUP = "+u:R,+h:R,+t:T,+d:R"
 
 
@@ -121,6 +124,45 @@ def duplex(tag, ring, shared, budget, prop, mon, extra=None, asan=False):
     if extra:
         kw.update(extra)
     return mcx(tag, ring=ring, asan=asan, **kw)
+
+
+# A small separate unsolicited buffer while the command machine's cursor is far beyond its size
+# (long response text, long argument list); two-variable events.
+T_DUPBIG = "+SSSSSSSSSSSS:R,vu1rw,vi1ro;+H:W,vu1rw,vu1rw,vu1rw;Z:U||+u:vu1ro,vu1ro;+h:R,vu1ro,vi1ro;+d"
+
+
+def duplex_cursor(tag, ring, prop, mon, budget=2, extra=None, asan=False):
+    kw = dict(prop=prop, table=T_DUPBIG, cap=34, shared=0, ubuf=9, name_alpha="+SHZ", max_name=2, args_alpha="1,", max_args=5, suffix_mask=7, lines=1,
+              refuse_read=1, refuse_write=1, codes_R="DATA_OK,OK", codes_W="OK,HOLD", codes_U="OK", ecodes_R="DATA_OK,OK", max_inv=1,
+              ev="+u:R,+h:R,+d:R", act="trigger,hold", trig_budget=budget, mon=mon)
+    if extra:
+        kw.update(extra)
+    return mcx(tag, ring=ring, asan=asan, **kw)
+
+
+# Two lines, the first one's handler triggers an event, the second one carries an over-long / multi-variable argument list
+# (shared buffer: the capacity boundary of the command half is the first byte of the event half).
+T_OVER = "+W:W;+V:W,vu1rw,vi1rw,vu1rw||+u:vu1ro,vu1ro"
+
+
+def duplex_overlong(tag, ring, shared, prop, mon, extra=None):
+    kw = dict(prop=prop, table=T_OVER, cap=7, shared=shared, name_alpha="+WV", max_name=2, args_alpha="1,", max_args=8, suffix_mask=4, lines=2,
+              refuse_read=1, refuse_write=1, codes_W="OK", max_inv=1, ev="+u:R", h_trigger=1, act="trigger", trig_budget=2, mon=mon)
+    if extra:
+        kw.update(extra)
+    return mcx(tag, ring=ring, **kw)
+
+
+# An event on the very command the input line addresses (write form only, read-only variables: nothing changes value)
+T_SAME = "+X:vu1ro,vu1ro;+Y:U"
+
+
+def same_cmd(tag, ring, prop, mon, extra=None):
+    kw = dict(prop=prop, table=T_SAME, cap=12, shared=ring - 1, name_alpha="+XY", max_name=2, args_alpha="1,", max_args=3, suffix_mask=5, lines=1,
+              refuse_read=1, refuse_write=1, codes_U="OK", max_inv=1, ev="+X:R,+X:T", act="trigger", trig_budget=2, mon=mon)
+    if extra:
+        kw.update(extra)
+    return mcx(tag, ring=ring, **kw)
 
 
 def c11_shards(tier, prop="C11", mon="C11"):
@@ -134,6 +176,10 @@ def c11_shards(tier, prop="C11", mon="C11"):
     # odd-sized shared buffer, and separate buffers of different sizes (smaller budget: the layouts differ only in capacities)
     sh.append(duplex("duplex-r1-oddshared", 1, 2, 2 if quick else 3, prop, mon))
     sh.append(duplex("duplex-r2-ubuf18", 2, 0, 2 if quick else 3, prop, mon, extra=dict(ubuf=18)))
+    for ring in (1, 2):
+        sh.append(duplex_cursor("duplex-cursor-r%d" % ring, ring, prop, mon, budget=2 if quick else 3))
+        sh.append(duplex_overlong("duplex-overlong-r%d" % ring, ring, ring % 2 + 1, prop, mon))
+        sh.append(same_cmd("duplex-samecmd-r%d" % ring, ring, prop, mon))
     return sh
 
 
@@ -175,18 +221,19 @@ PLANS["C12"] = p_c12
 
 # ---------------------------------------------------------------- C13 queue
 
-T_Q = "H:W;K:U||+a:vu1ro;+b:R,vu1ro;+c:T,D=cc;+d"
+T_Q = "H:W;K:U||+a:vu1ro;+b:R,vu1ro;+c:T,D=cc;+d;+w:vu1ro,vb12ro"
 
 
 def c13_shards(tier, prop="C13", mon="C13"):
     quick = tier == "quick"
     sh = []
     ev4 = "+a:R,+b:R,+c:T,+d:R"
+    ev5 = ev4 + ",+w:R"
     # (i) event machine alone, no command traffic: full fixpoint, four event kinds, every capacity
     for ring in (1, 2, 3, 8):
-        evs = ev4 if ring < 8 else "+a:R,+d:R"
+        evs = (ev5 if ring < 3 else ev4) if ring < 8 else "+a:R,+d:R"
         sh.append(mcx("queue-alone-r%d" % ring, ring=ring, prop=prop, table=T_Q, cap=12, shared=ring % 2, gen_mode="none", refuse_write=1,
-                      ecodes_R="OK,DATA_OK,DATA_NEXT,HEXIT_OK", ecodes_T="OK,HEXIT_ERR", max_inv=1, tok=1, ev=evs, act="trigger,queries", trig_budget=0, mon=mon))
+                      ecodes_R="OK,DATA_OK,DATA_NEXT,HEXIT_OK,ERROR", ecodes_T="OK,HEXIT_ERR,ERROR", max_inv=1, tok=1, ev=evs, act="trigger,queries", trig_budget=0, mon=mon))
     # (0) bounded searches first (trigger budget, one line): they terminate even if a change makes the state space infinite
     for ring in (1, 2, 3):
         sh.append(mcx("queue-bounded-r%d" % ring, ring=ring, prop=prop, table=T_Q, cap=12, shared=ring % 2, name_alpha="HK", max_name=1, args_alpha="1", max_args=0, suffix_mask=5, lines=1,
@@ -228,6 +275,11 @@ def c14_shards(tier, prop="C14", mon="C14"):
                           suffix_mask=sm, lines=2 if quick else 3, crlf=1, refuse_read=1, refuse_write=1, codes_W="HOLD,OK", codes_R="HOLD,DATA_OK", codes_U="HOLD,OK",
                           codes_T="HOLD,OK", ecodes_R="OK,HEXIT_OK,HEXIT_ERR,DATA_OK,ERROR,LIST,9", ecodes_T="OK,ERROR,HEXIT_OK,LIST", max_inv=1, tok=1, ev="+e:R,+x:R,+y:T", act="trigger,hold", trig_budget=2 if quick else 4,
                           h_hold_exit=1, mon=mon))
+    # the same with a mutex interface configured (no fault injection): a spurious or repeated release must leave the lock balanced
+    for nm, alpha, sm in (("W", "+W", 4), ("U", "+U", 1)):
+        sh.append(mcx("hold-%s-mutex" % nm, ring=1, prop=prop, table=T_HOLD, cap=16, shared=0, name_alpha=alpha, max_name=2, args_alpha="1", max_args=1,
+                      suffix_mask=sm, lines=2, refuse_read=1, refuse_write=1, codes_W="HOLD,OK", codes_U="HOLD,OK", ecodes_R="OK,HEXIT_OK,HEXIT_ERR,DATA_OK,ERROR",
+                      ecodes_T="OK,HEXIT_OK", max_inv=1, tok=1, ev="+e:R,+x:R", act="trigger,hold,queries", trig_budget=2, mutex=1, mon=mon + ",C16"))
     return sh
 
 
@@ -269,7 +321,7 @@ def c16_shards(tier):
     for ring in (1, 2):
         for sm, nm in ((1, "run"), (2, "read"), (4, "write")):
             sh.append(duplex("mutex-%s-r%d" % (nm, ring), ring, ring - 1, 2 if quick else 3, "C16", "C16",
-                             extra=dict(mutex=1, faults=1, h_trigger=0, act="trigger,hold,queries", suffix_mask=sm, ev="+u:R,+h:R,+t:T,+d:R", crlf=0, max_name=2,
+                             extra=dict(mutex=1, faults=1, h_trigger=0, act="trigger,hold,queries", suffix_mask=sm, ev="+u:R,+h:R,+t:T,+d:R,+w:R", crlf=0, max_name=2,
                                         ecodes_R="OK,DATA_OK,DATA_NEXT,HEXIT_OK,HEXIT_ERR", ecodes_T="OK,DATA_OK,HEXIT_OK,HEXIT_ERR", codes_T="OK,DATA_OK", codes_R="OK,DATA_OK,DATA_NEXT")))
     return sh
 
@@ -318,6 +370,10 @@ def c20_shards(tier):
                 sh.append(mcx("history-cap%d-sh%d-lc%d-l%d" % (cap, shared, lower, lines), prop="C20", table=T_HIST, cap=cap, shared=shared, name_alpha="+SRUDA", max_name=3 if quick else 4,
                               args_alpha=aa, max_args=ma, D=1 if lines == 0 else 0, dev=DEV, lines=lines, crlf=1, blank=1, lower=lower, refuse_read=1 if lines == 0 else 0, refuse_write=1 if lines == 0 else 0,
                               codes_W="OK,ERROR", codes_R="DATA_OK,OK", codes_U="OK,LIST", codes_T="DATA_OK,LIST", max_inv=1, varcb_fail=1, mon="C20"))
+    # several groups, a disabled one registered first: the match table is indexed by global command index
+    for lines in (3, 0):
+        sh.append(mcx("history-groups-l%d" % lines, prop="C20", table="!QA:U;QB:U;QC:U;QD:U|+MO:U;+MU:UR,vu1ro|+S:W,vu1rw", cap=8, shared=1, name_alpha="+MOUSQ", max_name=3, args_alpha="1", max_args=1,
+                      D=0, lines=lines, crlf=1, blank=0, refuse_read=0, refuse_write=0, codes_W="OK", codes_R="DATA_OK", codes_U="OK,ERROR", max_inv=1, mon="C20"))
     # lines whose handlers trigger unsolicited events: the event machine is busy while the response ends and the next line begins
     for ring, shared in ((1, 0), (2, 1)):
         sh.append(mcx("history-events-r%d" % ring, ring=ring, prop="C20", table=T_HIST + "||+e:vu1ro;+f:R", cap=8, shared=shared, name_alpha="+SRUA", max_name=3, args_alpha="1", max_args=1,
@@ -397,6 +453,9 @@ def p_c04(tier):
     quick = tier == "quick"
     sh = sw_shards("numeric", "C04", tier, 39, "--family", "all", "--maxlen", 5 if quick else 6)
     sh += sw_shards("numeric", "C04", tier, 32, "--family", "bounds")
+    # multi-variable WRITE parsed over several cat_service calls while unsolicited events start, flush and finish in between
+    for ring in (1, 2):
+        sh.append(duplex_overlong("write-with-events-r%d" % ring, ring, ring % 2 + 1, "C04", "C04", extra=dict(cap=12, max_args=6, lines=1, act="trigger", trig_budget=3)))
     return {"shards": sh, "require": ["runs", "wvar_ok", "wvar_err"],
             "technique": "exhaustive enumeration of argument texts on the real parser; acceptance decided on the text by arbitrary-precision comparison in the reference",
             "bounds": "all texts <=%d over 13 symbols for INT/UINT/HEX x width 1,2,4; boundary family: (2^7,2^8,2^15,2^16,2^31,2^32,2^63,2^64,10^19,10^20)+-3 and q*2^64+r (q<=16), "
@@ -409,8 +468,12 @@ PLANS["C04"] = p_c04
 
 def p_c05(tier):
     sh = sw_shards("buffers", "C05", tier, 48)
-    return {"shards": sh, "require": ["runs", "wvar_ok", "wvar_err"],
-            "technique": "exhaustive enumeration of argument texts on the real parser against a reference decoder; canaries after every variable",
+    sh += sw_shards("buffers", "C05", tier, 8, "--family", "residue", tagp="residue")
+    for ring in (1, 2):
+        sh.append(mcx("bufwrite-with-events-r%d" % ring, ring=ring, prop="C05", table="+V:W,vb2rw,vs3rw,vb1rw||+u:vu1ro,vu1ro", cap=16, shared=ring % 2 + 1, name_alpha="+V", max_name=2,
+                      args_alpha="A1,\"", max_args=6, suffix_mask=4, lines=1, refuse_read=1, refuse_write=1, codes_W="OK", max_inv=1, ev="+u:R", act="trigger", trig_budget=2, mon="C05"))
+    return {"shards": sh, "require": ["runs", "wvar_ok", "wvar_err", "units_evt"],
+            "technique": "exhaustive enumeration of argument texts on the real parser against a reference decoder; canaries after every variable; plus explicit-state exploration of buffer WRITEs interleaved with unsolicited events",
             "bounds": "hex buffers and strings, data_size 1..8,16,63,64, access RW/RO/WO, argument positions 1..3: k legal units (k=0..data_size+1, plain/escaped mixes) followed by every byte 1..255 "
                       "(closed and unclosed, every escape character); all texts over 4 (hex) / 6 (string) symbols up to 2*data_size+3 for data_size<=3",
             "rule": SWEEP_RULE, "assumptions": ["argument texts contain no NUL byte"]}
@@ -472,6 +535,8 @@ def p_c19(tier):
     sh += sw_shards("describe", "C19", tier, 16, "--family", "shapes", "--pairs", 1 if quick else 2, tagp="shapes2")
     # TEST text regenerated after NEXT / DATA_NEXT of a test handler (both machines, commands with two variables)
     sh += [s for s in c10_shards(tier, mon="C19", prop="C19") if "cmd-T" in s["tag"] or "evt" in s["tag"]]
+    # the command list while unsolicited events are triggered, flushed and refused around it
+    sh += [s for s in c11_shards(tier, prop="C19", mon="C19") if s["tag"].endswith("-run")]
     return {"shards": sh, "require": ["runs", "test_forms", "list_lines"],
             "technique": "exhaustive enumeration of descriptors on the real parser: TEST text and command list built from the descriptor by the reference; every request form of every listed command submitted",
             "bounds": "variable lists of length 0..3 over 15 type/width x 3 access x named/unnamed (%s), description and test handler on/off, both machines, exact-fit and one-short capacity; "
@@ -508,8 +573,10 @@ def p_c03(tier):
     for ring in (1, 2):
         sh.append(duplex("asan-duplex-r%d" % ring, ring, 1, 2, "C03", "C03", asan=True))
     for s in c10_shards("quick", mon="C03", prop="C03"):
-        if "tok1-sh1" in s["tag"] or "ub34" in s["tag"]:
+        if "tok1-sh2" in s["tag"] or "ub34" in s["tag"]:
             sh.append({"tag": "asan-" + s["tag"], "bin": s["bin"].replace("mcx_", "mcxasan_"), "args": s["args"]})
+    sh.append(mcx("asan-queue-alone-r8", ring=8, asan=True, prop="C03", table=T_Q, cap=12, shared=0, gen_mode="none", refuse_write=0,
+                  ecodes_R="OK", max_inv=1, ev="+a:R,+d:R", act="trigger,queries", trig_budget=0, mon="C03"))
     for ring in (2, 3):
         sh.append(mcx("asan-queue-alone-r%d" % ring, ring=ring, asan=True, prop="C03", table=T_Q, cap=12, shared=1, gen_mode="none", refuse_write=1,
                       ecodes_R="OK,DATA_OK,DATA_NEXT", ecodes_T="OK", max_inv=1, tok=1, ev="+a:R,+b:R,+c:T,+d:R", act="trigger,queries", trig_budget=0, mon="C03"))
